@@ -3,34 +3,51 @@ From Coq Require Import List Arith String.
 Import ListNotations.
 From SM Require Import C17.Model C17.Proofs C17.Names.
 
-(* After ANY history of edits (each advancing the modification time) to the
-   model file, the included C file or the templates, loads at any precision and
-   process restarts, the next load - same process or new - evaluates a library
-   compiled from the CURRENT texts.  Hypothesis: the tag identifies the source
-   (checked on every explored history; CRC32 is not injective in general). *)
+(* After ANY history of edits to the model file, the included C file or either kernel template - each
+   edit advancing the modification time OF THE FILE IT TOUCHES, nothing being assumed about the times of
+   different files relative to each other - loads at any precision and process restarts, the next load
+   (same process or new) evaluates a library compiled from the CURRENT texts.  Hypothesis: the tag
+   identifies the source (checked on every explored history; CRC32 is not injective in general). *)
 Theorem C17_load_current :
-  forall (Src : Type) (gen : nat -> nat -> nat -> Src) (tag : Src -> nat),
+  forall (Src : Type) (gen : nat -> nat -> nat -> nat -> Src) (tag : Src -> nat),
   (forall a b, tag a = tag b -> a = b) ->
-  forall m c t ops bits,
-  let s := fst (run Src gen tag (init Src m c t) ops) in
-  forall s' out, step Src gen tag s (Load bits) = (s', Some out) ->
-  out = gen (txt (fm Src s)) (txt (fc Src s)) (txt (ft Src s)).
+  forall m c h k ops bits,
+  advancing Src gen tag true (init Src m c h k) ops = true ->
+  let s := fst (run Src gen tag true (init Src m c h k) ops) in
+  forall s' out, step Src gen tag true s (Load bits) = (s', Some out) ->
+  out = gen (txt (fm Src s)) (txt (fc Src s)) (txt (fh Src s)) (txt (fk Src s)).
 Proof. exact load_current. Qed.
 Print Assumptions C17_load_current.
 
-(* the invariant behind it: every cached library was built from a source
-   carrying its key, cached module/template texts are current whenever their
-   recorded time is not older than the files *)
+(* the invariant behind it: every cached library was built from a source carrying its key; a cached
+   module/template text never carries a stamp later than its file's time and is current whenever the
+   stamp equals it *)
 Theorem C17_invariant :
-  forall (Src : Type) (gen : nat -> nat -> nat -> Src) (tag : Src -> nat) ops s0,
-  Inv Src tag s0 -> Inv Src tag (fst (run Src gen tag s0 ops)).
+  forall (Src : Type) (gen : nat -> nat -> nat -> nat -> Src) (tag : Src -> nat) ops s0,
+  Inv Src tag s0 -> advancing Src gen tag true s0 ops = true -> Inv Src tag (fst (run Src gen tag true s0 ops)).
 Proof. intros Src gen tag ops s0. apply inv_run. Qed.
 Print Assumptions C17_invariant.
 
 Theorem C17_load_total :
-  forall (Src : Type) gen tag (s : st Src) bits, exists out, snd (step Src gen tag s (Load bits)) = Some out.
+  forall (Src : Type) gen tag pf (s : st Src) bits, exists out, snd (step Src gen tag pf s (Load bits)) = Some out.
 Proof. exact load_some. Qed.
 Print Assumptions C17_load_total.
+
+(* the module cache of the tree before the repair (one "newest" stamp for all dependencies) does not have
+   the property: the C file is newer than the model file, the model file is edited (its own time advances
+   from 1 to 2) and the next load in the same process still evaluates the old text; with one stamp per
+   dependency the same history evaluates the new text *)
+Theorem C17_newest_stamp_refuted :
+  advancing SrcW genW tagW false witness_init witness_ops = true /\
+  let s := fst (run SrcW genW tagW false witness_init witness_ops) in
+  snd (step SrcW genW tagW false s (Load 64)) = Some (3, 5, 0, 0) /\ txt (fm SrcW s) = 4.
+Proof. exact newest_stamp_stale. Qed.
+Print Assumptions C17_newest_stamp_refuted.
+Theorem C17_per_file_stamp_example :
+  let s := fst (run SrcW genW tagW true witness_init witness_ops) in
+  snd (step SrcW genW tagW true s (Load 64)) = Some (4, 5, 0, 0).
+Proof. exact per_file_stamp_current. Qed.
+Print Assumptions C17_per_file_stamp_example.
 
 (* the cache key is recoverable from the file name of the library: libraries of two different
    (model id, source tag) pairs, or of two precisions, never share a name ("two different generated
